@@ -106,10 +106,14 @@ Definition write (st : state) (sid : nat) (cells : list nat) (vals : list Z) : s
   | Some s => mkst (set_nth sid (st_store st) (wr_cells s cells vals)) (st_objs st)
   | None => st
   end.
-(** a new PatternedTensor over a new contiguous storage *)
-Definition mk_fresh (st : state) (vals : list Z) (lay : layout) (dflt : Z) (dt : nat) : state * nat :=
-  let (st1, sid) := alloc st vals in
-  new_obj st1 (OPT (mkpt sid (seq 0 (length vals)) lay dflt dt)).
+(** a new PatternedTensor over a new storage of [length vals] cells; [cells] (a permutation of
+    0..n-1: the memory format of the new tensor; [seq 0 n] = contiguous) says in which cell each
+    element (in logical order) lives *)
+Definition place (vals : list Z) (cells : list nat) : list Z :=
+  wr_cells (repeat 0%Z (length vals)) cells vals.
+Definition mk_fresh (st : state) (vals : list Z) (cells : list nat) (lay : layout) (dflt : Z) (dt : nat) : state * nat :=
+  let (st1, sid) := alloc st (place vals cells) in
+  new_obj st1 (OPT (mkpt sid cells lay dflt dt)).
 
 (** ** scalar operations (exact on the integers the harness uses) *)
 Definition umap (f : nat) (v : Z) : Z :=
@@ -148,6 +152,11 @@ Definition compact (cells : list nat) : bool :=
   | _ => nodupb cells && (cells_hi cells - cells_lo cells + 1 =? length cells)
   end.
 
+(** Tensor.clone() / Tensor.to(other dtype) (memory_format=preserve_format): a non-overlapping and
+    dense tensor keeps its strides, any other becomes contiguous *)
+Definition clone_cells (cells : list nat) : list nat :=
+  if compact cells then map (fun c => c - cells_lo cells) cells else seq 0 (length cells).
+
 (** PatternedTensor.copy_(self=dst, src):
       p = self.physical
       if p.numel() == src.physical.numel() and p.dtype == src.physical.dtype:
@@ -168,8 +177,9 @@ Definition copy_into (st : state) (dst src : nat) : state * out :=
         let st1 := write st (pt_sid p) cells' vals in
         (set_obj st1 dst (OPT (mkpt (pt_sid p) cells' (pt_lay q) (pt_dflt q) (pt_dt p))), ONone)
     else
-      let (st1, sid) := alloc st vals in
-      (set_obj st1 dst (OPT (mkpt sid (seq 0 n) (pt_lay q) (pt_dflt q) (pt_dt q))), ONone)
+      let cells' := clone_cells (pt_cells q) in
+      let (st1, sid) := alloc st (place vals cells') in
+      (set_obj st1 dst (OPT (mkpt sid cells' (pt_lay q) (pt_dflt q) (pt_dt q))), ONone)
   | _, _ => (st, OErr)
   end.
 
@@ -190,16 +200,17 @@ Definition sel_cells (cells sel : list nat) : list nat :=
   flat_map (fun i => match nth_error cells i with Some c => [c] | None => [] end) sel.
 
 Definition clone_pt (st : state) (q : pt) : state * nat :=
-  mk_fresh st (phys st q) (pt_lay q) (pt_dflt q) (pt_dt q).
+  mk_fresh st (phys st q) (clone_cells (pt_cells q)) (pt_lay q) (pt_dflt q) (pt_dt q).
 
+(** [prm] = (layout of the result pattern, memory format of the result's physical) *)
 Definition bin_vals (st : state) (b : nat) (dv1 : list Z) (d1 : Z) (dv2 : list Z) (d2 : Z)
-           (n : nat) (lay : layout) (dt : nat) : state * nat :=
+           (prm : layout * list nat) (dt : nat) : state * nat :=
   let d := bop b d1 d2 in
-  mk_fresh st (scatter n lay (zip_bop b dv1 dv2) d) lay d dt.
+  mk_fresh st (scatter (length (snd prm)) (fst prm) (zip_bop b dv1 dv2) d) (snd prm) (fst prm) d dt.
 (** add/sub/mul/maximum of two PatternedTensors: [commutative]/[sub] build the result in the
     tensor returned by [to_dense] of one operand (always a new storage) *)
-Definition bin_fresh (st : state) (b : nat) (p q : pt) (prm : nat * layout) : state * nat :=
-  bin_vals st b (dense st p) (pt_dflt p) (dense st q) (pt_dflt q) (fst prm) (snd prm) (pt_dt p).
+Definition bin_fresh (st : state) (b : nat) (p q : pt) (prm : layout * list nat) : state * nat :=
+  bin_vals st b (dense st p) (pt_dflt p) (dense st q) (pt_dflt q) prm (pt_dt p).
 
 (** ** MultiTensor operations *)
 Fixpoint lookup (k : nat) (d : list (nat * nat)) : option nat :=
@@ -220,13 +231,13 @@ Fixpoint loop {A} (body : state -> A -> state * out) (st : state) (l : list A) :
               match o with ONone => loop body st1 t | _ => (st1, o) end
   end.
 
-Definition prm_of (prms : list (nat * (nat * layout))) (k : nat) : nat * layout :=
-  match find (fun x => fst x =? k) prms with Some x => snd x | None => (0, []) end.
+Definition prm_of (prms : list (nat * (layout * list nat))) (k : nat) : layout * list nat :=
+  match find (fun x => fst x =? k) prms with Some x => snd x | None => ([], []) end.
 
 (** add_single(self=m, k, v=x):
       if k in self: self[k] = self.semiring.add(self[k], v)      (a new object)
       else:         self[k] = v                                  (the SAME object: aliasing) *)
-Definition add_single (st : state) (m k x : nat) (prm : nat * layout) : state * out :=
+Definition add_single (st : state) (m k x : nat) (prm : layout * list nat) : state * out :=
   match get_mt st m, get_pt st x with
   | Some d, Some q =>
     match lookup k d with
@@ -242,7 +253,7 @@ Definition add_single (st : state) (m k x : nat) (prm : nat * layout) : state * 
 
 (** __isub__: self[x] = self.semiring.sub(self[x], t); self[x] of a missing key is a temporary
     zero tensor of that shape *)
-Definition isub_single (st : state) (m k x : nat) (prm : nat * layout) : state * out :=
+Definition isub_single (st : state) (m k x : nat) (prm : layout * list nat) : state * out :=
   match get_mt st m, get_pt st x with
   | Some d, Some q =>
     match lookup k d with
@@ -253,14 +264,14 @@ Definition isub_single (st : state) (m k x : nat) (prm : nat * layout) : state *
       end
     | None =>
       let dq := dense st q in
-      let (st1, r) := bin_vals st 1 (repeat 0%Z (length dq)) 0%Z dq (pt_dflt q) (fst prm) (snd prm) (pt_dt q) in
+      let (st1, r) := bin_vals st 1 (repeat 0%Z (length dq)) 0%Z dq (pt_dflt q) prm (pt_dt q) in
       (set_obj st1 m (OMT (d ++ [(k, r)])), ONone)
     end
   | _, _ => (st, OErr)
   end.
 
 (** maximum_: if x in self: self[x] = self[x].maximum(t)  else: self[x] = t   (aliasing) *)
-Definition max_single (st : state) (m k x : nat) (prm : nat * layout) : state * out :=
+Definition max_single (st : state) (m k x : nat) (prm : layout * list nat) : state * out :=
   match get_mt st m, get_pt st x with
   | Some d, Some q =>
     match lookup k d with
@@ -327,7 +338,7 @@ Definition mclone_shallow (st : state) (m : nat) : state * out :=
   match get_mt st m with
   | Some d =>
     let (st1, c) := new_obj st (OMT []) in
-    match loop (fun st kr => add_single st c (fst kr) (snd kr) (0, [])) st1 d with
+    match loop (fun st kr => add_single st c (fst kr) (snd kr) ([], [])) st1 d with
     | (st2, ONone) => (st2, ORefs [c])
     | (st2, o) => (st2, o)
     end
@@ -368,7 +379,7 @@ Definition mallclose (st : state) (m n : nat) : state * out :=
 
 (** ** operations *)
 Inductive op :=
-| ONew (vals : list Z) (lay : layout) (dflt : Z)                 (* PatternedTensor(torch.tensor(...), paxes, vaxes, default) *)
+| ONew (vals : list Z) (cells : list nat) (lay : layout) (dflt : Z)   (* PatternedTensor(torch.tensor(...), paxes, vaxes, default) *)
 | OClone (x : nat)                                               (* x.clone() *)
 | OMap (f x : nat)                                               (* x.neg_() ... x *= 2 *)
 | OCopy (dst src : nat)                                          (* dst.copy_(src) *)
@@ -377,19 +388,19 @@ Inductive op :=
 | OGetItem (x : nat) (sel : list nat) (lay : layout)             (* x[vis], index inside the pattern: physical[pi] *)
 | OFull (x n : nat)                                              (* x[vis], index outside the pattern: full(shape, default) *)
 | OIter (x : nat) (fr : option (nat * layout)) (items : list (list nat * layout))  (* list(iter(x)) *)
-| ODefaultTo (x : nat) (d : Z)                                   (* x.default_to(d) *)
+| ODefaultTo (x : nat) (d : Z) (perm : list nat)                 (* x.default_to(d); perm = memory format of to_dense() *)
 | OTo (x dt : nat)                                               (* x.to(dtype) *)
-| OToDense (x : nat)                                             (* PatternedTensor(x.to_dense()) *)
+| OToDense (x : nat) (perm : list nat)                           (* PatternedTensor(x.to_dense()) *)
 | OProject (x n : nat) (lay : layout)                            (* PatternedTensor(x.project(paxes, vaxes)) *)
-| OBin (b x y : nat) (prm : nat * layout)                        (* x.add(y) x.sub(y) x.mul(y) x.maximum(y) *)
+| OBin (b x y : nat) (prm : layout * list nat)                   (* x.add(y) x.sub(y) x.mul(y) x.maximum(y) *)
 | OMNew                                                          (* MultiTensor(shapes, semiring) *)
 | OMSet (m k x : nat)                                            (* m[k] = x *)
 | OMGet (m k n : nat)                                            (* m[k] / m.get(k) *)
 | OMDel (m k : nat)                                              (* del m[k] *)
-| OMAddSingle (m k x : nat) (prm : nat * layout)                 (* m.add_single(k, x) *)
-| OMIadd (m n : nat) (prms : list (nat * (nat * layout)))        (* m += n *)
-| OMIsub (m n : nat) (prms : list (nat * (nat * layout)))        (* m -= n *)
-| OMMaximum (m n : nat) (prms : list (nat * (nat * layout)))     (* m.maximum_(n) *)
+| OMAddSingle (m k x : nat) (prm : layout * list nat)            (* m.add_single(k, x) *)
+| OMIadd (m n : nat) (prms : list (nat * (layout * list nat)))   (* m += n *)
+| OMIsub (m n : nat) (prms : list (nat * (layout * list nat)))   (* m -= n *)
+| OMMaximum (m n : nat) (prms : list (nat * (layout * list nat))) (* m.maximum_(n) *)
 | OMCopy (m n : nat)                                             (* m.copy_(n) *)
 | OMClone (m : nat)                                              (* m.clone() *)
 | OMAllclose (m n : nat).                                        (* m.allclose(n, 0) *)
@@ -404,7 +415,7 @@ Definition add_views (st : state) (sid : nat) (base : list nat) (dflt : Z) (dt :
 
 Definition step (st : state) (o : op) : state * out :=
   match o with
-  | ONew vals lay dflt => ret1 (mk_fresh st vals lay dflt 0)
+  | ONew vals cells lay dflt => ret1 (mk_fresh st vals cells lay dflt 0)
   | OClone x =>
     (* PatternedTensor(self.physical.clone(), freshened paxes, vaxes, self.default) *)
     match get_pt st x with Some q => ret1 (clone_pt st q) | None => (st, OErr) end
@@ -448,12 +459,12 @@ Definition step (st : state) (o : op) : state * out :=
       end
     | None => (st, OErr)
     end
-  | ODefaultTo x d =>
+  | ODefaultTo x d perm =>
     (* self if self.default == default else PatternedTensor(self.to_dense(), default=default) *)
     match get_pt st x with
     | Some p =>
       if Z.eqb (pt_dflt p) d then (st, ORefs [x])
-      else let dv := dense st p in ret1 (mk_fresh st dv (idlay (length dv)) d (pt_dt p))
+      else let dv := dense st p in ret1 (mk_fresh st dv perm (idlay (length dv)) d (pt_dt p))
     | None => (st, OErr)
     end
   | OTo x dt =>
@@ -461,19 +472,19 @@ Definition step (st : state) (o : op) : state * out :=
     match get_pt st x with
     | Some p =>
       if pt_dt p =? dt then ret1 (new_obj st (OPT p))
-      else ret1 (mk_fresh st (phys st p) (pt_lay p) (pt_dflt p) dt)
+      else ret1 (mk_fresh st (phys st p) (clone_cells (pt_cells p)) (pt_lay p) (pt_dflt p) dt)
     | None => (st, OErr)
     end
-  | OToDense x =>
+  | OToDense x perm =>
     (* both branches of to_dense return a new tensor (project(...).clone() / new_full + copy_) *)
     match get_pt st x with
-    | Some p => let dv := dense st p in ret1 (mk_fresh st dv (idlay (length dv)) 0%Z (pt_dt p))
+    | Some p => let dv := dense st p in ret1 (mk_fresh st dv perm (idlay (length dv)) 0%Z (pt_dt p))
     | None => (st, OErr)
     end
   | OProject x n lay =>
     (* ret = self.physical.new_full(sizes, self.default); subret.copy_(subself); return ret *)
     match get_pt st x with
-    | Some p => ret1 (mk_fresh st (scatter n lay (dense st p) (pt_dflt p)) (idlay n) 0%Z (pt_dt p))
+    | Some p => ret1 (mk_fresh st (scatter n lay (dense st p) (pt_dflt p)) (seq 0 n) (idlay n) 0%Z (pt_dt p))
     | None => (st, OErr)
     end
   | OBin b x y prm =>
